@@ -1467,6 +1467,11 @@ class Engine:
         v = fr[place[0]].v
         if isinstance(v, Opaque):
             return
+        if name is not None and v is None:
+            # a zero-sized guard value is never assigned in MIR (`debug g => const Guard`), yet the elaborated drop is
+            # emitted exactly where it is initialised: run the Drop impl on a fieldless value of the type
+            fr[place[0]].v = Struct(short, [])
+            v = fr[place[0]].v
         if name is not None and v is not None:
             self.run(self.funcs[name], [Ref(fr[place[0]])])
             return
